@@ -213,6 +213,10 @@ def run(ctx: Ctx):
 
     _app_request(ctx, R, E)
     _routes(ctx, model, nc)
+    from . import c06
+    ctx.include(c06.run, {"C06-R1"}, "C08-R6",
+                "on a connection in either ready sub-state every received message reaches the "
+                "node's dispatch (gate table of the connection)", floor=9)
 
 
 def _anc(fn, node):
